@@ -71,6 +71,26 @@ func (w *Proxy) signal() {
 	}
 	s.Fault("graceful_stop_requested")
 	s.Logf("graceful stop requested; %d requests in flight %v", len(w.phase), w.phase)
+	// "stops accepting new connections": while the drain is still going on, at a few drawn instants, nobody
+	// may be listening any more (simulated time only moves on once everything the stop request made
+	// runnable has run, so one millisecond later the listeners must be closed)
+	drain := time.Duration(w.P.DrainMs) * time.Millisecond
+	for i, d := range []time.Duration{time.Millisecond, 20 * time.Millisecond, 300 * time.Millisecond, drain / 2} {
+		if !s.Ch.Bool("work", "drainprobe") {
+			continue
+		}
+		s.After(d, fmt.Sprintf("drainprobe:%d", i), func() {
+			if w.shutRet != 0 {
+				return // (the state after Shutdown has returned is judged there)
+			}
+			w.Stats["c11_drain_probes"]++
+			for _, a := range []string{w.lisAddr, lisAddr2} {
+				if w.N.Listening(a) {
+					s.Violate("C11", "still_accepting_during_drain", "%v after the graceful stop was requested (drain still going on, drain timeout %v) the listener %s still accepts connections", s.Now()-w.sigAt, drain, a)
+				}
+			}
+		})
+	}
 	s.Go("shutdown", func() { _ = w.mosn.Shutdown() }, func() {
 		w.shutRet = s.Now()
 		s.Logf("Shutdown returned after %v", w.shutRet-w.sigAt)
